@@ -243,11 +243,21 @@ func (e *Env) eval(x *Expr) SVal {
 		for _, b := range x.Vars {
 			sortName := sortAlias(b.Sort)
 			var T types.Type
-			if tt := e.lookupType(b.Sort); tt != nil {
+			if strings.HasPrefix(b.Sort, "*") {
+				if tt := e.lookupType(b.Sort[1:]); tt != nil {
+					T = types.NewPointer(tt)
+					sortName = "Int"
+				} else {
+					e.errf(x, "unknown type %s", b.Sort)
+				}
+			} else if tt := e.lookupType(b.Sort); tt != nil {
 				T = tt
 				sortName = e.t.sortOf(tt)
 			}
 			vn := q("bv$" + b.Name)
+			if strings.HasPrefix(b.Sort, "*") {
+				vn = q("bv$p_" + b.Name) // ranges over objects: instantiated at the function's pointer values (engine hint)
+			}
 			nb[b.Name] = SVal{S: vn, Sort: sortName, T: T}
 			decl = append(decl, fmt.Sprintf("(%s %s)", vn, sortName))
 		}
@@ -371,7 +381,7 @@ func (e *Env) evalSel(x *Expr) SVal {
 		cur := ST
 		for _, i := range path {
 			cs := cur.Underlying().(*types.Struct)
-			s = app(q(e.t.sortOf(cur)+"."+cs.Field(i).Name()), s)
+			s = app(q(e.t.sortOf(cur)+"."+fieldAcc(cs, i)), s)
 			cur = e.resolveT(cs.Field(i).Type())
 			if pp, ok := cur.Underlying().(*types.Pointer); ok && i != path[len(path)-1] {
 				_ = pp
@@ -600,11 +610,19 @@ func (e *Env) evalCall(x *Expr) SVal {
 		if !ok || n.Obj().Pkg() == nil || n.Obj().Pkg().Path() != "sync/atomic" {
 			e.errf(x, "aload of a non-atomic")
 		}
-		p, ok2 := t.atomicCell(Val{S: v.S}, "sync/atomic."+n.Obj().Name()+".Load")
+		recv := Val{S: v.S}
+		if _, isPtr := e.resolveT(v.T).Underlying().(*types.Pointer); !isPtr && v.P != nil {
+			recv = Val{P: v.P} // atomic embedded by value
+		}
+		p, ok2 := t.atomicCell(recv, "sync/atomic."+n.Obj().Name()+".Load")
 		if !ok2 {
 			e.errf(x, "aload: unsupported atomic type")
 		}
-		return SVal{S: e.inState(func() string { return t.load(p) }), T: p.T, Sort: t.sortOf(p.T)}
+		RT := p.T
+		if n.Obj().Name() == "Pointer" && n.TypeArgs() != nil && n.TypeArgs().Len() == 1 {
+			RT = types.NewPointer(e.resolveT(n.TypeArgs().At(0)))
+		}
+		return SVal{S: e.inState(func() string { return t.load(p) }), T: RT, Sort: t.sortOf(p.T)}
 	case "hasprefix": // hasprefix(s, p): p is a prefix of s (abstract byte strings)
 		a, b := e.eval(x.Args[0]), e.eval(x.Args[1])
 		return SVal{S: app("sprefix", b.S, a.S), Sort: "Bool"}
